@@ -363,6 +363,10 @@ where
     T: zeroize::Zeroize,
 {""")]),
     ("c15-encode-url-safe-engine", ["C15"], [], [(CORE + "util.rs", "        ContentEncoding::Base64 => BASE64.encode(bytes),", "        ContentEncoding::Base64 => nostr::base64::engine::general_purpose::URL_SAFE.encode(bytes),")]),
+    ("c15-image-hash-prefix-then-exact", ["C15"], [], [(CORE + "extension/types.rs", """                raw.image_hash
+                    .try_into()
+                    .map_err(|_| Error::InvalidImageHashLength)?,""", """                <[u8; 32]>::try_from(raw.image_hash.get(..32).ok_or(Error::InvalidImageHashLength)?)
+                    .map_err(|_| Error::InvalidImageHashLength)?,""")]),
     ("c15-as-raw-key-from-hash", ["C15"], [], [(CORE + "extension/types.rs", "            image_key: self.image_key.map_or_else(Vec::new, |key| key.to_vec()),", "            image_key: self.image_hash.map_or_else(Vec::new, |key| key.to_vec()),")]),
     ("c16-welcome-dedup-unchecked", ["C16"], [], [(CORE + "welcomes.rs", """            .find_processed_welcome_by_event_id(wrapper_event_id)
             .map_err(|e| Error::Welcome(e.to_string()))?
